@@ -120,6 +120,46 @@ Proof.
 Qed.
 Print Assumptions C17_line_shape.
 
+(* Logger::Impl::formatTime as regenerated from Logging.cc (Gen_C17): the per-thread cache is
+   refreshed when `seconds != t_lastSecond`; the snprintf format of t_time prints
+   "YYYYMMDD HH:MM:SS"; the branch taken when a zone is configured prints ".uuuuuu " (8 bytes), the
+   other ".uuuuuuZ " (9 bytes), each after 17 bytes of t_time; t_time (64 bytes) holds the 17
+   characters and the NUL.  The model's format_time interprets these regenerated formats and
+   lengths (mini_printf); this theorem is the side condition under which it is the specification
+   format_time_spec used by C17_line_shape (an edited format, length, swapped branch or refresh
+   test in the source re-runs it and fails). *)
+Theorem C17_logger_time_generated :
+  cache_refresh_is_ne = true /\
+  (forall d, mini_printf time_format (dt_fields d) = time_text d) /\
+  (forall us, mini_printf us_format_zone [us] = [x2e] ++ fmt_d x30 6 us ++ [x20]) /\
+  (forall us, mini_printf us_format_utc [us] = [x2e] ++ fmt_d x30 6 us ++ [x5a; x20]) /\
+  time_len_zone = 17 /\ time_len_utc = 17 /\ us_len_zone = 8 /\ us_len_utc = 9 /\
+  (17 < Z.to_nat Logging_t_time_size)%nat /\ (1 <= Z.to_nat Logging_errnobuf_size)%nat.
+Proof. exact logger_time_gen. Qed.
+Print Assumptions C17_logger_time_generated.
+
+(* The per-thread second cache over a whole sequence of lines of one thread, starting from the
+   zero-initialised cache: as long as the zone is not changed in between (the broken-down time of
+   every line is ONE function F of its second) and no line is stamped with second 0 of the epoch,
+   EVERY line that fits carries the true date/time text of its own second -- cache hits included.
+   (C17_time_cache_refuted below: not so across Logger::setTimeZone.) *)
+Theorem C17_time_cache_partial : forall fmt_g, (forall d, (length (fmt_g d) <= 24)%nat) ->
+  forall F rs, Forall (line_ok fmt_g F) rs ->
+  Forall2 (fun r out => exists b, out = Ok b /\ data b = line_text fmt_g r) rs (log_lines fmt_g tls0 rs).
+Proof. exact (fun fmt_g Hg F rs H => lines_shape fmt_g Hg F rs tls0 (cache_for_tls0 F) H). Qed.
+Print Assumptions C17_time_cache_partial.
+
+(* When does a line fit?  strerror_tl returns a C string held in t_errnobuf (regenerated size, 512):
+   at most size-1 characters; thread ids are below 10^7 (kernel limit 2^22).  Then everything but
+   the function name, the message and the base name takes at most 76 + size characters. *)
+Theorem C17_line_fits : forall fmt_g r, req_ok r -> 0 <= lq_tid r < 10 ^ 7 ->
+  (match lq_errno r with Some (_, txt) => (length (until_nul txt) < Z.to_nat Logging_errnobuf_size)%nat | None => True end) ->
+  (length (func_text r) + total_len fmt_g (lq_msg r) + length (basename (until_nul (lq_path r))) +
+   (76 + Z.to_nat Logging_errnobuf_size) + kMaxNumericSize <= kSmallBuffer)%nat ->
+  (length (line_text fmt_g r) + kMaxNumericSize <= kSmallBuffer)%nat.
+Proof. exact line_fits. Qed.
+Print Assumptions C17_line_fits.
+
 (* the date text of a line is stale when the zone was changed within the second the cache is
    labelled with: same second, now zone UTC+8, line still shows the UTC text *)
 Definition ex_dt_utc := mkDT 2023 11 14 22 13 20.
@@ -188,6 +228,18 @@ Example ex_line :
   | _ => False
   end.
 Proof. vm_compute. split; reflexivity. Qed.
+
+(* the hypotheses of C17_time_cache_partial and C17_line_fits are inhabited: a line of second
+   1700000000 with F constant; 3364 characters are left for function name, message and base name *)
+Example ex_line_ok : line_ok (fun _ => []) (fun _ => ex_dt_utc) (ex_req false ex_dt_utc) /\
+                     (76 + Z.to_nat Logging_errnobuf_size + kMaxNumericSize + 3364 <= kSmallBuffer)%nat.
+Proof.
+  split; [|apply Nat.leb_le; vm_compute; reflexivity].
+  split; [|split; [reflexivity|split; [discriminate|apply Nat.leb_le; vm_compute; reflexivity]]].
+  unfold req_ok, dt_ok. cbn [ex_req ex_dt_utc lq_dt lq_msg lq_errno lq_line lq_micros
+    dt_year dt_month dt_day dt_hour dt_minute dt_second].
+  split; [lia|]. split; [repeat constructor|]. split; [exact I|]. split; lia.
+Qed.
 
 Example ex_gate : macro_emits LOG_DEBUG INFO = false /\ macro_emits LOG_INFO INFO = true /\
                   macro_emits LOG_WARN FATAL = true.
